@@ -1,6 +1,6 @@
 SPECIFICATION Spec
 CONSTANTS
-  E = 6
+  E = 5
   KMin = 1
   KMax = 3
   TES = {0,1,2,3,4,5,6,7,8,9,10}
